@@ -1032,7 +1032,7 @@ func runC20(job common.Job, em *emitter) {
 					// public constructors, own estimators, constant rate
 					c := c20Ewma{Kind: "const", Ctor: rng.PickS("ewmaeta", "ewmaspeed", "ewmaeta", "ewmaspeed", "tsma-eta", "tsma-speed"), Wrap: rng.Intn(3), Via: rng.PickS("direct", "bar", "barset"),
 						Age: []float64{0, 0, 30, 1, 7.5, 100}[rng.Intn(6)], PerNs: rng.Pick64(1, 3, 1000, 12345, int64(time.Millisecond))}
-					for i, n := 0, rng.Range(15, 30); i < n; i++ {
+					for i, n := 0, rng.Range(40, 60); i < n; i++ { // well past any estimator's warm-up
 						items := 1 + rng.I64n(1000)
 						d := items * c.PerNs
 						if rng.Chance(1, 4) && d > 1 {
